@@ -33,7 +33,7 @@ ChkGAddSub(e) ==
     /\ LET A == AbsJ(e.G, e.a)  Bp == AbsJ(e.G, e.b)  O == AbsJ(e.G, e.out)
            want == IF e.op = "g.add" THEN GAdd(e.G, A, Bp) ELSE GAdd(e.G, A, GNeg(e.G, Bp))
        IN /\ O = want /\ e.isz = (want = Inf)
-          /\ (Sampled(e, 16) =>                                  \* the logged discrete logarithms, by textbook scalar multiplication
+          /\ (Sampled(e, 16) /\ ~("nodl" \in DOMAIN e /\ e.nodl) =>       \* the logged discrete logarithms, by textbook scalar multiplication
                  /\ A = Dl(e.G, e.ka) /\ Bp = Dl(e.G, e.kb)
                  /\ O = Dl(e.G, ToBE(IF e.op = "g.add" THEN BAddMod(FromBE(e.ka), FromBE(e.kb), R) ELSE BSubMod(FromBE(e.ka), FromBE(e.kb), R), 32)))
 ChkGNeg(e) == JacOK(e.G, e.a) /\ JacOK(e.G, e.out) /\ AbsJ(e.G, e.out) = GNeg(e.G, AbsJ(e.G, e.a))
